@@ -194,13 +194,16 @@ def artefact(res, suffix="_vela.tflite"):
     return None
 
 
-def corpus_jobs(capture=True):
-    """networks kept from earlier findings; run first by the end-to-end checks"""
+def corpus_jobs(capture=True, skip_for=None):
+    """networks kept from earlier findings; run first by the end-to-end checks. skip_for = (check id, tier): entries whose
+    sidecar lists the check under "thorough_only_for" are left to the thorough tier (their validation is slow)"""
     jobs = []
     cdir = os.path.join(vlib.ROOT, "corpus")
     for f in sorted(glob.glob(os.path.join(cdir, "*.json"))):
         d = json.load(open(f))
         if "tflite" not in d:
+            continue
+        if skip_for and skip_for[1] == "quick" and skip_for[0] in d.get("thorough_only_for", []):
             continue
         path = os.path.join(cdir, d["tflite"])
         sha = hashlib.sha256(open(path, "rb").read()).hexdigest()[:16]
